@@ -146,18 +146,31 @@ var c10 = &vh.Prop[c10Case]{
 				if len(b.data) < 2 {
 					continue
 				}
-				bad := append([]byte{}, b.data...)
-				pos := op.B % len(bad)
-				switch op.A % 3 {
-				case 0:
-					bad = bad[:pos]
-				case 1:
-					bad[pos] ^= 0x55
-				default:
-					bad = append(bad[:pos], 0xff, 0xff, 0xff, 0xff, 0x0f)
+				// every truncation point, then a few damaged variants: some fail right after a map
+				// key / a string / a nested struct has been decoded into pooled or shared scratch
+				bt := c.Types[b.typ].Build()
+				lim := len(b.data)
+				if lim > 160 {
+					lim = 160
 				}
-				scratch := reflect.New(c.Types[b.typ].Build())
-				_ = p.Unmarshal(bad, scratch.Interface())
+				for cut := 0; cut < lim; cut++ {
+					scratch := reflect.New(bt)
+					_ = p.Unmarshal(b.data[:cut:cut], scratch.Interface())
+				}
+				for k := 0; k < 6; k++ {
+					bad := append([]byte{}, b.data...)
+					pos := (op.B + k*7) % len(bad)
+					switch (op.A + k) % 3 {
+					case 0:
+						bad[pos] ^= 0x55
+					case 1:
+						bad[pos] = 0xff
+					default:
+						bad = append(bad[:pos], 0xff, 0xff, 0xff, 0xff, 0x0f)
+					}
+					scratch := reflect.New(bt)
+					_ = p.Unmarshal(bad, scratch.Interface())
+				}
 				x.Label("op:decodeCorrupt")
 			case "newTarget":
 				rv := vh.ToReflect(ts, op.Val)
